@@ -108,6 +108,8 @@ pub fn check(ctx: &mut Ctx) {
     drive(ctx, "std", n, 1200, &decode, &check_case);
     let n = ctx.tier.pick(100_000, 1_500_000);
     drive(ctx, "tokenless", n, 300, &|t| gen::tokenless_case(t), &check_case);
+    let n = ctx.tier.pick(20_000, 200_000);
+    drive(ctx, "long-url", n, 600, &|t| gen::long_url_case(t), &check_case);
     let n = ctx.tier.pick(100_000, 1_000_000);
     drive(ctx, "live", n, 400, &decode_fuse, &check_live);
     let (per, len) = ctx.tier.pick((2, 3000), (10, 12000));
